@@ -129,11 +129,13 @@ Proof.
   unfold py_def, to_code. simpl h_name. simpl h_params. rewrite (sig_of_no_self _ NS).
   simpl map. rewrite map_pc_name.
   change (pc_name self_code) with SELF.
-  rewrite O1.
-  change (existsb bad_name (SELF :: map p_name ps)) with (bad_name SELF || existsb bad_name (map p_name ps)) in O2.
-  rewrite O2. rewrite O3.
-  simpl req_after_opt. rewrite req_after_opt_spec.
-  simpl existsb. rewrite (no_bare _ O4). simpl.
+  rewrite O1, O2, O3.
+  change (req_after_opt false (self_code :: map param_to_code ps))
+    with (req_after_opt false (map param_to_code ps)).
+  rewrite req_after_opt_spec.
+  change (existsb is_bare (self_code :: map param_to_code ps))
+    with (existsb is_bare (map param_to_code ps)).
+  rewrite (no_bare _ O4). simpl.
   destruct (well_ordered false ps); simpl; split; intros H; try reflexivity; try discriminate.
   - eexists; reflexivity.
   - destruct H as (s & H). discriminate.
@@ -211,8 +213,9 @@ Proof.
   - simpl. f_equal. apply map_pc_name.
   - unfold bound_signature, full_signature. rewrite nreq_spec.
     cbn [a_args a_defaults].
-    rewrite (sig_view_spec (self_code :: map param_to_code ps) O W).
-    simpl. rewrite map_map. reflexivity.
+    pose proof (sig_view_spec (self_code :: map param_to_code ps) O W) as SV.
+    rewrite Nat.add_0_l in SV. rewrite SV.
+    simpl. rewrite map_map. apply map_ext. intros p. unfold pview, view_of. rewrite pc_name_param. reflexivity.
 Qed.
 
 (* ---------- required parameters followed by optional ones ---------- *)
@@ -294,7 +297,8 @@ Proof.
   intros NS H. apply py_def_inv in H. destruct H as [W E].
   unfold to_code in *. simpl h_params in *. rewrite (sig_of_no_self _ NS) in *. subst s.
   unfold promote_spec. rewrite nreq_spec. cbn [a_args].
-  rewrite (reflect_spec (self_code :: map param_to_code ps) O W).
+  pose proof (reflect_spec (self_code :: map param_to_code ps) O W) as SV.
+  rewrite Nat.add_0_l in SV. rewrite SV.
   simpl. f_equal. rewrite map_map. apply map_ext. intros p.
   unfold decl_view. rewrite pc_name_param. f_equal.
   unfold param_to_code. destruct (p_required p); reflexivity.
